@@ -289,6 +289,15 @@ func (t *Transaction) Insert(op *ovsdb.Operation) (ovsdb.OperationResult, *updat
 		return ovsdb.ResultFromError(err), nil
 	}
 
+	// a row with this UUID must not exist already, neither in the database
+	// nor among the rows inserted earlier in this transaction
+	if tc := t.Cache.Table(op.Table); tc != nil && tc.HasRow(op.UUID) {
+		return ovsdb.ResultFromError(ovsdb.NewConstraintViolation(fmt.Sprintf("row %s already exists in table %s", op.UUID, op.Table))), nil
+	}
+	if row, err := t.Database.Get(t.DbName, op.Table, op.UUID); err == nil && row != nil {
+		return ovsdb.ResultFromError(ovsdb.NewConstraintViolation(fmt.Sprintf("row %s already exists in table %s", op.UUID, op.Table))), nil
+	}
+
 	update := updates.ModelUpdates{}
 	err := update.AddOperation(t.Model, op.Table, op.UUID, nil, op)
 	if err != nil {
